@@ -1,9 +1,9 @@
 package props
 
 import (
-	"errors"
 	"bytes"
 	"context"
+	"errors"
 	"fmt"
 	"sort"
 	"testing"
@@ -56,11 +56,11 @@ type cliScenario struct {
 	Dels        []cliDeliver `json:"deliveries"`
 	CloseAt     int          `json:"close_at"` // odd tick, -1: closed at the end
 	DoubleClose bool         `json:"double_close"`
-	LogDropped  bool         `json:"log_dropped"`    // nclient6: WithLogDroppedPackets
+	LogDropped  bool         `json:"log_dropped"`           // nclient6: WithLogDroppedPackets
 	CloseFails  bool         `json:"close_fails,omitempty"` // fault injection: the socket's own Close reports an error (it is closed all the same)
-	LogMode     int          `json:"log_mode,omitempty"` // logging configuration of the client (adapter.start); 0: none
-	Dest        int          `json:"dest,omitempty"` // destination selector (adapter.setDest): other ports, broadcast, zoned IPv6 addresses
-	Window      int          `json:"window,omitempty"` // unlimited tries are watched for this many tries before the runner cancels (0: 11)
+	LogMode     int          `json:"log_mode,omitempty"`    // logging configuration of the client (adapter.start); 0: none
+	Dest        int          `json:"dest,omitempty"`        // destination selector (adapter.setDest): other ports, broadcast, zoned IPv6 addresses
+	Window      int          `json:"window,omitempty"`      // unlimited tries are watched for this many tries before the runner cancels (0: 11)
 }
 
 func (sc cliScenario) logMode() int {
